@@ -29,6 +29,10 @@ func panicClass(c *fw.Ctx, fn *ssa.Function, pn *ssa.Panic) (class, detail strin
 		for _, l := range term {
 			a := l.Atom
 			isParam := strings.Contains(a, "param:")
+			// a method of a request-input struct (…Input): its fields are the local caller's
+			if !isParam && strings.Contains(a, "recv.") && fn.Signature.Recv() != nil && strings.HasSuffix(strings.TrimSuffix(fw.Short(fn.Signature.Recv().Type().String()), ")"), "Input") {
+				isParam = true
+			}
 			switch {
 			case l.Pos && isParam && strings.HasSuffix(a, " == nil)") && !strings.Contains(a, "("+"gmsl") && !strings.Contains(a, "#"):
 				hit = true
